@@ -318,6 +318,13 @@ class Ctx:
                 mergeprog.regenerate()
             except Exception as e:  # `merge` is no longer in a form the effect language expresses
                 self.broken_obligation(f'translator (merge effect program): {type(e).__name__}: {e}')
+        if 'AeicProofs.Lemmas.Locate' in deps:
+            try:
+                from . import locprog
+
+                locprog.regenerate()
+            except Exception as e:  # the merged lookup is no longer in the form the parameters describe
+                self.broken_obligation(f'translator (merged lookup): {type(e).__name__}: {e}')
         if 'AeicModel.Generated.AddProg' in deps:
             try:
                 from . import addprog
